@@ -845,7 +845,7 @@ func (sh *Shared) strConsts(names string) []string {
 		if f.Pkg != sh.pkg || f.Parent() != nil || strings.HasPrefix(f.Name(), "vp") {
 			continue
 		}
-		if want[f.Name()] || (f.Pos().IsValid() && want["*"+filepath.Base(sh.prog.Fset.Position(f.Pos()).Filename)]) {
+		if want["*"] || want[f.Name()] || (f.Pos().IsValid() && want["*"+filepath.Base(sh.prog.Fset.Position(f.Pos()).Filename)]) {
 			scan(f)
 		}
 	}
